@@ -22,7 +22,8 @@ class C32(Spec):
     shard = 150
     impl_jobs = 8
     rule = ('flat groups: every digraph on 2 and 3 components x every declared order (exhaustive); random flat '
-            'groups of 4-8 components and random hierarchies (depth <= 3) with subsystems added in random order, '
+            'groups of 4-8 components and random hierarchies (depth <= 3, plain groups and ParallelGroups with nested '
+            'auto_order groups) with subsystems added in random order, a quarter of the cases set up twice, '
             'acyclic by construction or with back edges, auto_order on (and mixed flags); a case is non-trivial '
             'when it is a distinct model (graph, declared order, coefficients)')
     assumptions = ['networkx strongly_connected_components is not modelled: its output on every generated graph '
@@ -65,14 +66,16 @@ class C32(Spec):
                             todo.append(b)
             if cnt != len(decl):
                 acyc = False
-        allauto = all(g['auto'] for g in groups)
+        allauto = all(g['auto'] or g.get('par') for g in groups)
         return 'acyclic' if (acyc and allauto) else ('acyclic-mixedflags' if acyc else 'cyclic')
 
     def flat_case(self, kind, n, edges, declared, rng, auto=True):
-        case = {'kind': kind, 'n': n,
+        case = {'kind': kind, 'n': n, 'resetup': rng.random() < 0.25,
                 'tree': {'g': n + 1, 'auto': auto, 'ch': [{'c': i} for i in declared]},
                 'comps': self.mk_comps(n, edges, rng)}
         case['cls'] = self.classify(case)
+        if case['resetup']:
+            case['kind'] += '-resetup'
         return case
 
     def tree_case(self, rng, cyclic, mixed):
@@ -83,11 +86,12 @@ class C32(Spec):
 
         def mk(items, depth):
             gid[0] += 1
-            me = {'g': gid[0], 'auto': True if not mixed else rng.random() < 0.6, 'ch': []}
+            me = {'g': gid[0], 'auto': True if not mixed else rng.random() < 0.6, 'ch': [],
+                  'par': depth > 1 and rng.random() < 0.35}
             k = 0
             while k < len(items):
-                if depth < 3 and len(items) - k >= 2 and rng.random() < 0.35:
-                    m = rng.randrange(1, min(4, len(items) - k) + 1)
+                if depth < 3 and len(items) - k >= 2 and rng.random() < (0.7 if me['par'] else 0.35):
+                    m = rng.randrange(2 if me['par'] else 1, min(4, len(items) - k) + 1)
                     me['ch'].append(mk(items[k:k + m], depth + 1))
                     k += m
                 else:
@@ -111,13 +115,34 @@ class C32(Spec):
                 else:
                     edges.add((b, a))
 
+        # children of a ParallelGroup are not ordered by the framework: no data flows between them
+        def owners(node, acc, top):
+            for ch in node['ch']:
+                if 'g' in ch:
+                    owners(ch, acc, top)
+            if node.get('par'):
+                own = {}
+                for ch in node['ch']:
+                    for lf in leaves(ch):
+                        own[lf] = nid(ch)
+                acc.append(own)
+        pars = []
+        owners(tree, pars, tree)
+        edges = {(a, b) for (a, b) in edges
+                 if not any(a in own and b in own and own[a] != own[b] for own in pars)}
+
         def shuffle(node):
             if 'g' in node:
                 rng.shuffle(node['ch'])
                 for ch in node['ch']:
                     shuffle(ch)
         shuffle(tree)
-        case = {'kind': 'tree', 'n': n, 'tree': tree, 'comps': self.mk_comps(n, edges, rng)}
+        case = {'kind': 'tree', 'n': n, 'tree': tree, 'comps': self.mk_comps(n, edges, rng),
+                'resetup': rng.random() < 0.25}
+        if any(g.get('par') for g in groups_preorder(tree)):
+            case['kind'] = 'tree-par'
+        if case['resetup']:
+            case['kind'] += '-resetup'
         case['cls'] = self.classify(case)
         return case
 
@@ -177,7 +202,7 @@ class C32(Spec):
             ch = [sys_term(c) for c in node['ch']]
             if decl and decl[0] == 0:
                 ch = ['(SComp 0)'] + ch
-            return '(SGroup (%d) %s [%s] %s %s)' % (node['g'], boollit(node['auto']), '; '.join(ch),
+            return '(SGroup (%d) %s [%s] %s %s)' % (node['g'], boollit(node['auto'] and not node.get('par')), '; '.join(ch),
                                                    edges_term(es), lol(sccs[node['g']]))
         comps = '[%s]' % '; '.join(
             '(mkcomp (%d) (%d) (%d) %s %s)' % (c['id'], c['b'], c['init'], edges_term(c['terms']),
